@@ -46,6 +46,8 @@ def policy (ty field : String) : Policy :=
   | "ocppj.DefaultClientDispatcher", "paused" => .lock "mutex"
   | "ocppj.DefaultClientDispatcher", "timerDeadline" => .lock "timerMutex"
   | "ocppj.DefaultClientDispatcher", "requestChannel" => .chanLock "mutex"
+  | "ocppj.DefaultClientDispatcher", "stoppedC" => .chanLock "mutex"
+  | "ocppj.DefaultClientDispatcher", "pumpDone" => .lock "mutex"
   | "ocppj.DefaultServerDispatcher", "requestChannel" => .chanLock "mutex"
   | "ocppj.DefaultServerDispatcher", "running" => .lock "mutex"
   | "ocppj.DefaultServerDispatcher", "stoppedC" => .chanLock "mutex"
